@@ -25,6 +25,61 @@ class TraceVerdicts:
         return n_total - len(bad)
 
 
+def _balanced(text):
+    depth = 0
+    i = 0
+    n = len(text)
+    instr = False
+    while i < n:
+        c = text[i]
+        if instr:
+            if c == "\\":
+                i += 1
+            elif c == '"':
+                instr = False
+        elif c == '"':
+            instr = True
+        elif text.startswith("<<", i):
+            depth += 1
+            i += 1
+        elif text.startswith(">>", i):
+            depth -= 1
+            i += 1
+        elif c in "[{(":
+            depth += 1
+        elif c in "]})":
+            depth -= 1
+        i += 1
+    return depth == 0 and not instr
+
+
+def printed_tuples(out):
+    """PrintT output of TLC: tuples may be pretty-printed over several lines when wider than 80 columns. Every value that
+    starts with '<<' at the beginning of a line is collected until its brackets balance; anything that then does not parse
+    is a machinery failure (never silently ignored)."""
+    res = []
+    lines = out.splitlines()
+    i = 0
+    while i < len(lines):
+        ln = lines[i]
+        if ln.startswith('<<"V"') or ln.startswith('<<"DONE"') or ln.startswith('<< "V"') or ln.startswith('<< "DONE"'):
+            buf = ln
+            j = i
+            while not _balanced(buf):
+                j += 1
+                if j >= len(lines) or j - i > 400:
+                    raise tlc.MachineryError("unterminated verdict tuple in TLC output: %r" % buf[:200])
+                buf += "\n" + lines[j]
+            try:
+                res.append(parse_value(buf))
+            except Exception as ex:  # pylint: disable=broad-except
+                raise tlc.MachineryError("cannot parse verdict tuple %r: %s" % (buf[:300], ex)) from ex
+            i = j + 1
+        else:
+            i += 1
+    return res
+
+
 def check_json_ints(obj, path="$"):
     """TLC integers are 32 bit and JsonDeserialize mangles bigger ones / floats / nulls: refuse them early."""
     if isinstance(obj, bool) or isinstance(obj, str):
@@ -68,13 +123,7 @@ def validate(spec_dirs, module, cfg, items, name="trace", timeout=900, chunk=Non
         if not res.ok:
             raise tlc.MachineryError("trace validation run failed (%s): %s" % (module, res.out[-2000:]))
         done = None
-        for ln in res.printed:
-            if not ln.startswith("<<"):
-                continue
-            try:
-                t = parse_value(ln)
-            except Exception:  # pylint: disable=broad-except
-                continue
+        for t in printed_tuples(res.out):
             if not t:
                 continue
             if t[0] == "V":
